@@ -606,6 +606,9 @@ func concreteStrHash(s string) uint64 {
 func (fr *frame) hashBytes(b value) value {
 	m := fr.m()
 	if g, ok := b.(*ghostBytes); ok {
+		if g == nil {
+			return mkBV(64, 0)
+		}
 		return g.sum(m)
 	}
 	sl, _ := b.([]value)
